@@ -274,6 +274,11 @@ class Func:
 
 class Module:
     def __init__(s, path):
+        # one module at a time per process: global names, named types and the global address space belong to the module being
+        # loaded (a second wrapper loaded in the same process must not resolve `@alloc_...` constants to the first one's objects)
+        global GLOBALS
+        GLOBALS = GlobalSpace()
+        GADDR.clear(); FADDR.clear(); NAMED_SRC.clear(); NAMED.clear()
         s.funcs = {}; s.globals = {}; s.decls = set()
         txt = open(path).read().split('\n')
         i = 0; n = len(txt)
